@@ -308,8 +308,11 @@ def _serde_symmetry(R, F, ctx):
             key = "%s.%s" % (st["name"], f["name"])
             skip_s = bool(a.get("skip_serializing") or a.get("skip"))
             skip_d = bool(a.get("skip_deserializing") or a.get("skip"))
-            R.ob(skip_s == skip_d, "SERDE", loc, "SERDE|%s|skip" % key,
-                 "%s is skipped on one side only (serializing=%s, deserializing=%s): serialise->deserialise->serialise changes the JSON" % (key, skip_s, skip_d))
+            # read-skipped but written: the reader drops what the writer emits.  write-skipped but read: fine iff absence is readable
+            ok_skip = (skip_s == skip_d) or (skip_s and not skip_d and ("default" in a or f["ty"].startswith("Option<")))
+            R.ob(ok_skip, "SERDE", loc, "SERDE|%s|skip" % key,
+                 "%s is skipped on one side only (serializing=%s, deserializing=%s) and its absence is not readable: "
+                 "serialise->deserialise->serialise changes the JSON" % (key, skip_s, skip_d))
             if "skip_serializing_if" in a:
                 ok = "default" in a or f["ty"].startswith("Option<")
                 R.ob(ok, "SERDE", loc, "SERDE|%s|skip_serializing_if" % key,
